@@ -272,6 +272,23 @@ def valid_message(rng: random.Random) -> Tuple[bytes, str]:
         if len(data) <= MAX:
             return data, "valid-wire-high-offsets-%s" % mode
         b = wire.Builder(comp)
+    if rng.random() < 0.05:
+        # 256 and more entries in one section of one datagram: the high byte of a header count is in use (the library's own
+        # encoder never gets there, it splits at 1460 bytes)
+        b = wire.Builder("full")
+        few = [pool.get() for _ in range(3)]
+        sec_big = rng.choice([0, 1, 2, 3])
+        n_big = rng.choice([256, 257, 300, 511, 512, 520])
+        if sec_big == 0:
+            for k in range(n_big):
+                b.question(few[k % 3], rng.choice([1, 12, 16, 28, 33, 255]), 1)
+        else:
+            for k in range(n_big):
+                b.record(sec_big, few[k % 3], 1, 1, 120, bytes([10, k >> 8, k & 0xFF, 1]))
+        data = b.finish(rng.randrange(65536), 0x8400 if sec_big else 0)
+        if len(data) <= MAX:
+            return data, "valid-wire-many-entries"
+        b = wire.Builder(comp)
     nq = rng.choice([0, 0, 1, 2, 5])
     for _ in range(nq):
         q = gen.gen_question(rng, pool)
